@@ -19,7 +19,10 @@ RULE = ('cases = random subset and order of (Tags, Error, Volatile, Retry) passe
         'recorders) x 1-3 events with condition-free transitions (reflexive 35%, internal 8%, states without outgoing '
         'transition) x 1-3 models, each hook name pre-occupied with probability 0.17 per model by an instance '
         'attribute set before the machine is attached or by an attribute of the model\'s class x histories of 1-14 '
-        'model.trigger calls (50% repeat the previous call, 4% unknown event); every 9th case is from the malformed '
+        'model.trigger calls (50% repeat the previous call, 4% unknown event), in 60% of the cases with Error (25% of '
+        'the others) interleaved with 1-4 machine.add_transition / machine.remove_transition(event, source=state) '
+        'calls biased to taking a state\'s last outgoing transition away, giving a dead end a way out and re-adding '
+        'what was removed; every 9th case is from the malformed '
         'stream (arguments of absent mixins, retries without on_failure, Tags before Error, duplicate mixin).  After '
         'every call: callback trace (enter/exit/on_failure, model, state seen), result / exception type, every '
         'model\'s state and the identity of the object visible under each hook name (fresh = never observed before '
@@ -38,7 +41,8 @@ THEOREMS = ['C19_tags', 'C19_error_iff', 'C19_retry_spec', 'C19_retry_exact', 'C
             'C19_volatile_nonvacuous', 'C19_volatile_refuted', 'C19_volatile_refuted_error', 'C19_per_model',
             'C19_frame_state', 'C19_frame', 'C19_frame_nonvacuous', 'C19_volatile_entry_fresh',
             'C19_volatile_exit_removes', 'C19_volatile_occupied', 'C19_retry_spec_occupied', 'C19_hier_flat',
-            'C19_hier_fresh', 'C19_volatile_refuted_nested']
+            'C19_hier_fresh', 'C19_volatile_refuted_nested', 'C19_dyn_static', 'C19_error_iff_dynamic',
+            'C19_has_trigger_add', 'C19_has_trigger_remove', 'C19_error_dynamic', 'C19_retry_refuted_dynamic']
 
 TAGS = [0, 1, 2, 3, 4]
 HOOKS = [0, 1, 2]
@@ -157,6 +161,38 @@ def gen(rng, i, tier):
             hist.append(list(hist[-1]))
         else:
             hist.append([rng.randrange(nm), ne + 2 if rng.random() < 0.04 else rng.randrange(ne)])
+    # the machine's transitions change while it runs: add_transition / remove_transition(event, source=...)
+    # between the calls, biased to what matters for Error: take a state's last outgoing transition away, give a
+    # dead end a way out, remove and re-add
+    if rng.random() < (0.6 if FE in feats else 0.25):
+        cur = [list(t) for t in trans]
+        out = []
+        removed = []
+        pending = rng.randint(1, 4)
+        for i, hc in enumerate(hist):
+            out.append(hc)
+            while pending and rng.random() < 0.35:
+                pending -= 1
+                srcs = sorted({t[1] for t in cur})
+                dead = [x for x in range(ns) if x not in srcs]
+                k = rng.random()
+                if k < 0.45 and cur:
+                    pairs = sorted({(t[0], t[1]) for t in cur})
+                    lone = [pr for pr in pairs if sum(1 for q in pairs if q[1] == pr[1]) == 1]
+                    e, s_ = rng.choice(lone if lone and rng.random() < 0.7 else pairs)
+                    removed.extend(t for t in cur if t[0] == e and t[1] == s_)
+                    cur = [t for t in cur if not (t[0] == e and t[1] == s_)]
+                    out.append(['rm', e, s_])
+                else:
+                    if removed and rng.random() < 0.3:
+                        t = list(rng.choice(removed))
+                    else:
+                        s_ = rng.choice(dead) if dead and rng.random() < 0.7 else rng.randrange(ns)
+                        kk = rng.random()
+                        t = [rng.randrange(ne + 1), s_, None if kk < 0.08 else s_ if kk < 0.4 else rng.randrange(ns)]
+                    cur.append(t)
+                    out.append(['add'] + t)
+        hist = out
     case = dict(cls=cls, order=feats, states=states, trans=trans, ignore=rng.random() < 0.25,
                 nmodels=nm, init=rng.randrange(ns), history=hist, tree=None, pre=[], clsattr=[])
     if nested:
@@ -244,6 +280,27 @@ def path_hook_clash(case, p):
 
 
 
+def is_call(hc):
+    return len(hc) == 2
+
+
+def apply_op(trans, hc):
+    """the transition table after a history entry"""
+    if is_call(hc):
+        return trans
+    if hc[0] == 'add':
+        return trans + [[hc[1], hc[2], hc[3]]]
+    return [t for t in trans if not (t[0] == hc[1] and t[1] == hc[2])]
+
+
+def enc_hist(hc):
+    if is_call(hc):
+        return [0, hc[0], hc[1]]
+    if hc[0] == 'add':
+        return [1, hc[1], hc[2], [] if hc[3] is None else [hc[3]]]
+    return [2, hc[1], hc[2]]
+
+
 def enc(case):
     tree = case.get('tree')
     paths = [[s['id'], path_of(case, s['id'])] for s in case['states']] if tree else []
@@ -253,7 +310,7 @@ def enc(case):
             [[s['id'], [bool(x) for x in s['given']], s['enter'], s['exit'], s['tags'], bool(s['accepted']),
               s['hook'], s['retries'], [] if s['on_failure'] is None else [s['on_failure']]] for s in build_order(case)],
             [[e, s, [] if d is None else [d]] for e, s, d in case['trans']],
-            bool(case['ignore']), case['nmodels'], case['init'], [[m, e] for m, e in case['history']], TAGS, HOOKS,
+            bool(case['ignore']), case['nmodels'], case['init'], [enc_hist(hc) for hc in case['history']], TAGS, HOOKS,
             paths, inits, [list(x) for x in pre], [list(x) for x in cl], len(pre) + len(cl)]
 
 
@@ -367,10 +424,18 @@ def _run_machine(tr, case, decorated):
         return len(objs) - 1
 
     steps = []
-    for m, e in case['history']:
+    for hc in case['history']:
         del log[:]
         try:
-            r = models[m].trigger('e%d' % e)
+            if is_call(hc):
+                r = models[hc[0]].trigger('e%d' % hc[1])
+            elif hc[0] == 'add':
+                machine.add_transition('e%d' % hc[1], full_name(case, hc[2]),
+                                       None if hc[3] is None else full_name(case, hc[3]))
+                r = True
+            else:
+                machine.remove_transition('e%d' % hc[1], source=full_name(case, hc[2]))
+                r = True
             res = [0, bool(r)]
         except Exception as ex:  # noqa
             res = [1, _exc_code(tr, ex)]
@@ -435,9 +500,20 @@ def chain_guard(case):
     before = o[:o.index(FV)]
     if FR in before and any(s['retries'] > 0 for s in case['states']):
         return False
-    if FE in before and any(_error_state(case, s) for s in case['states']):
-        return False
+    if FE in before and (any(_error_state(case, s) for s in case['states']) or is_dynamic(case)):
+        return False            # with add/remove_transition any state may become an error state
     return True
+
+
+def is_dynamic(case):
+    return any(not is_call(hc) for hc in case['history'])
+
+
+def spec_guard(case):
+    """the order-independent specification describes the model: C19_volatile's guard, and not the stale-counter
+    class KF-C19-4 (Error before Retry on a machine whose transitions change)"""
+    o = case['order']
+    return volatile_guard(case) and not (is_dynamic(case) and FE in o and FR in o and o.index(FE) < o.index(FR))
 
 
 def branch_guard(case):
@@ -478,10 +554,23 @@ def check_clauses(case, obs, info=None):
     seen_ids = set(o for _, _, o in case.get('pre', [])) | set(o for _, _, o in case.get('clsattr', []))
     ntok = [0]
     streak = [0] * nm
-    known_events = {t[0] for t in case['trans']}
-    feature_free = all(s['retries'] == 0 for s in case['states']) and not (
-        h['error'] and any(_error_state(case, s) for s in case['states']))
-    for k, ((m, e), (items, res, snap), (pitems, pres, psnap)) in enumerate(zip(case['history'], steps, psteps)):
+    trans = [list(t) for t in case['trans']]
+    stale = [False] * nm       # the model sits in a state whose entry raised before Retry.enter ran (Error, .., Retry)
+    order = case['order']
+    err_before_retry = FE in order and FR in order and order.index(FE) < order.index(FR)
+    for k, (hc, (items, res, snap), (pitems, pres, psnap)) in enumerate(zip(case['history'], steps, psteps)):
+        if not is_call(hc):
+            # add_transition / remove_transition: no callback, no model touched
+            prev = steps[k - 1][2] if k > 0 else None
+            if items or res != [0, True] or (prev is not None and snap != prev):
+                bad.append(('C19_frame', 'reconfiguration %d: %r %r' % (k, items, res), {}))
+            trans = apply_op(trans, hc)
+            continue
+        m, e = hc
+        case = dict(case, trans=trans)          # every helper below reads the table current at this call
+        known_events = {t[0] for t in trans}
+        feature_free = all(s['retries'] == 0 for s in case['states']) and not (
+            h['error'] and any(_error_state(case, s) for s in case['states']))
         p = path_of(case, cur[m])
         t = cand_on_path(case, e, p) if e in known_events else None
         # per-model separation: the other models are untouched by this call
@@ -498,7 +587,8 @@ def check_clauses(case, obs, info=None):
             d = t[2]
             exits, enters = resolve(case, p, d)
             raised = res == [1, 0]
-            # C19_error_iff: the first entered state that is an error state raises, nothing else does
+            # C19_error_iff: the first entered state that is an error state NOW (no outgoing transition in the
+            # current table, not accepted) raises, nothing else does
             err_at = next((i for i, a in enumerate(enters) if h['error'] and _error_state(case, sd[a])), None)
             if raised != (err_at is not None):
                 bad.append(('C19_error_iff', 'call %d entering %r: %r' % (k, enters, res), {}))
@@ -507,18 +597,22 @@ def check_clauses(case, obs, info=None):
                 src, ds = cur[m], sd[d]
                 if src != d:
                     streak[m] = 0
+                    stale[m] = False
                 exhausted = h['retry'] and ds['retries'] > 0 and streak[m] > ds['retries']
                 if not exhausted:
                     streak[m] += 1
                 ex_items = [[0, c, m, src] for c in sd[src]['exit']]
-                if raised:
-                    exp_items = ex_items
-                elif exhausted:
-                    exp_items = ex_items + [[2, ds['on_failure'], m, d]]
-                else:
-                    exp_items = ex_items + [[1, c, m, d] for c in ds['enter']]
+                it_fail = ex_items + [[2, ds['on_failure'], m, d]]
+                it_enter = ex_items + [[1, c, m, d] for c in ds['enter']]
+                exp_items = ex_items if raised else it_fail if exhausted else it_enter
                 if items != exp_items:
-                    bad.append(('C19_retry_spec', 'call %d: %r expected %r' % (k, items, exp_items), {}))
+                    known = stale[m] and src == d and not raised and ds['retries'] > 0 and items in (it_fail, it_enter)
+                    bad.append(('C19_retry_spec', 'call %d: %r expected %r' % (k, items, exp_items),
+                                dict(k=k, j=m, stale=known)))
+                    if known:       # resynchronise on the counter the implementation evidently has
+                        streak[m] = ds['retries'] + 1 if items == it_fail else 1
+                if raised and err_before_retry and src != d:
+                    stale[m] = True
             # C19_volatile: every exit removes what is under the state's hook name, every entry that takes
             # place puts a fresh object there, whatever was under the name before
             if h['vol']:
@@ -588,16 +682,24 @@ def classify_known(case, model_obs, impl_obs):
     model in the state without its volatile object.  KF-C19-2: Error precedes Volatile and the entry into an
     error state raised before Volatile.enter.  KF-C19-3: a state and one of its ancestors use the same hook
     name and the model is / was in both (the child's entry overwrites, its exit deletes the parent's object).
+    KF-C19-4: Error precedes Retry, an entry from another state raised MachineError before Retry.enter could reset
+    the counter, the state then received an outgoing self transition (add_transition) and its re-entries are
+    counted from the stale counter.
     Every other failing clause stays a violation."""
     bad = check_clauses(case, impl_obs)
-    if not bad or any(c != 'C19_volatile' for c, _, _ in bad) or volatile_guard(case):
+    if not bad or any(c not in ('C19_volatile', 'C19_retry_spec') for c, _, _ in bad):
         return None
     o = case['order']
-    before = o[:o.index(FV)]
+    before = o[:o.index(FV)] if FV in o else []
     steps = impl_obs[1][2]
     sd = _sd(case)
     kinds = set()
     for c, detail, data in bad:
+        if c == 'C19_retry_spec':
+            if data.get('stale'):
+                kinds.add('KF-C19-4')
+                continue
+            return None
         k, j, hk = data['k'], data['j'], data['hook']
         items, res, snap = steps[k]
         m = case['history'][k][0]
@@ -667,7 +769,7 @@ def extra_checks(tier, seed):
             bad = dict(kind='oracle-vs-spec', theorem='harness oracle = FeaturesSpec.spec_step', case=c,
                        spec_obs=ssteps, failing_clause='%s: %s' % r[0][:2])
             break
-        if volatile_guard(c) and steps != ssteps:
+        if spec_guard(c) and steps != ssteps:
             bad = dict(kind='model-vs-spec', theorem='C19_retry_spec / C19_volatile (extracted)', case=c,
                        model_obs=steps, spec_obs=ssteps)
             break
@@ -702,7 +804,10 @@ def nontrivial(case, obs):
     if info.get('entries_with_occupied_hook'):
         return True                                       # a state entered while its hook name was occupied
     prev = [[case['init'], [[] for _ in HOOKS]] for _ in range(case['nmodels'])]
-    for (m, e), (items, res, snap) in zip(case['history'], obs[1][2]):
+    for hc, (items, res, snap) in zip(case['history'], obs[1][2]):
+        if not is_call(hc):
+            continue
+        m = hc[0]
         if res == [1, 0] and snap[m][0] != prev[m][0]:
             return True                                   # Error raised on entry
         if any(it[0] == 2 for it in items):
@@ -730,12 +835,17 @@ def stats(case, obs, dist):
     if FV in case['order'] and not branch_guard(case):
         inc('outside_branch_guard')
     inc('nested' if case.get('tree') else 'flat')
+    if is_dynamic(case):
+        inc('cases_with_add_or_remove_transition')
+        inc('reconfigurations', sum(1 for hc in case['history'] if not is_call(hc)))
     if case.get('pre') or case.get('clsattr'):
         inc('cases_with_preexisting_attributes')
     info = {}
     check_clauses(case, obs, info)
     inc('entries_with_occupied_hook', info.get('entries_with_occupied_hook', 0))
-    for items, res, snap in obs[1][2]:
+    for hc, (items, res, snap) in zip(case['history'], obs[1][2]):
+        if not is_call(hc):
+            continue
         inc('calls')
         if res == [0, True]:
             inc('executed')
